@@ -193,7 +193,9 @@ class Case:
         # reset to the default afterwards
         past = rh.random() < 0.33 and self.n >= 2
         kw = {"node_weights": rh.uniform(0.5, 3.0, self.n)} if past else {}
-        ok, net = ctx.call(Network, adjacency=Ah, directed=directed,
+        from pvm.gen.held import as_flag
+        ok, net = ctx.call(Network, adjacency=Ah,
+                           directed=as_flag(rh, directed),
                            silence_level=3, **kw)
         if not ok:
             ctx.violation(f"constructor:{self.dirs}:raises:{type(net).__name__}",
